@@ -312,6 +312,11 @@ def h_eigh(ctx, n, D, P, sigma=1, epsilon=None):
             ctx.eq(QtQ[d], I[d], 'QtQ==I order %d dir %d' % (d, p))
         for i in range(n):
             ctx.eq(ld[0, p, i], lams[p][i], 'lambda_0 ascending as returned by numpy [%d] dir %d' % (i, p))
+        if ctx.mode == 'float':
+            # numeric only: the zeroth coefficients are the factorisation NumPy returns (up to the sign of each eigenvector)
+            w, Vn = np.linalg.eigh(np.array(X[0, p].tolist(), dtype=float))
+            Q0f = np.array(Qd[0, p].tolist(), dtype=float)
+            ctx.fact(bool(np.allclose(np.abs(np.dot(Vn.T, Q0f)), np.eye(n), atol=1e-5)), 'Q_0 equals numpy.linalg.eigh eigenvectors up to sign (dir %d)' % p)
     ctx.eq(plain(A.data), X, 'input unchanged')
 
 
